@@ -12,6 +12,7 @@ Upper bounds only; premature stops are C03's business.
 from __future__ import annotations
 
 import copy
+import random
 
 from .. import gen as G
 from ..drive import run_retry_scenario
@@ -32,7 +33,18 @@ BUDGETS = {"quick": (60000, 90), "thorough": (2200000, 285)}
 
 
 def gen(seed, tier="quick"):
-    return G.gen_retry(seed, KNOBS)
+    scn = G.gen_retry(seed, KNOBS)
+    r = random.Random(seed ^ 0xC01)
+    if scn["mode"] == "async" and len(scn["calls"]) > 1 and r.random() < 0.5:
+        # overlapping calls on ONE policy object: each call's caps must hold on their own
+        scn["concurrent"] = True
+        for c in scn["calls"]:
+            c.pop("before", None)
+            c["start_us"] = r.choice([0, 0, 1000, 500_000])
+            for st in c["attempts"]:
+                if st.get("dur", 0) == 0:
+                    st["dur"] = r.choice([0, 1000, 250_000])
+    return scn
 
 
 def _norm_call(cf):
@@ -90,7 +102,7 @@ def execute(scn):
 
     res = common.execute_retry(scn, orc)
     # R5 differential: only without shared budget/breaker state
-    if len(scn["calls"]) > 1 and not scn["cfg"].get("budget") and not scn["cfg"].get("breaker"):
+    if len(scn["calls"]) > 1 and not scn["cfg"].get("budget") and not scn["cfg"].get("breaker") and not scn.get("concurrent"):
         calls = holder["calls"]
         for j in range(1, len(scn["calls"])):
             if j not in calls or calls[j].begin is None:
